@@ -3,34 +3,40 @@
 Grammar (EBNF; everything else in a source file is skipped at item level with balanced brackets):
 
   file     := item*
-  item     := attr* vis? ( 'struct' IDENT generics? ( '{' field,* '}' | ';' | '(' ... ')' ';' )
-                         | 'impl' generics? type ('for' type)? '{' (attr* vis? fn | other)* '}'
+  item     := attr* vis? ( 'struct' IDENT generics? ( '{' field,* '}' | ';' | '(' (vis? type),* ')' ';' )
+                         | 'enum' IDENT generics? '{' (attr* IDENT ( '(' type,* ')' | '{' field,* '}' )? ('=' expr)?),* '}'
+                         | 'impl' generics? type ('for' type)? '{' (attr* vis? fn | 'type' IDENT '=' type ';' | other)* '}'
                          | 'type' IDENT '=' type ';'
                          | fn
                          | other )                      -- other: skipped up to ';' or a balanced '{...}'
+             -- `#[derive(A, B, ..)]` attributes of a struct / enum are kept (the derived operators are part of its meaning)
   fn       := 'fn' IDENT generics? '(' param,* ')' ('->' type)? ( block | ';' )
   param    := '&'? 'mut'? 'self' | 'mut'? IDENT ':' type
-  type     := '&' LIFETIME? 'mut'? type | '[' type ';' INT ']' | '(' type,* ')' | path ('<' type,* '>')?
+  type     := '&' LIFETIME? 'mut'? type | '[' type ';' INT ']' | '[' type ']' | '(' type,* ')' | path ('<' type,* '>')?
+            | 'Self' '::' IDENT                         -- an associated type of the impl
   block    := '{' stmt* expr? '}'
   stmt     := 'let' pat (':' type)? '=' expr ';'
             | lvalue ('=' | '+=' | '-=' | '*=' | '/=') expr ';'
             | 'for' pat 'in' expr0 ('..' expr0)? block
             | 'return' expr? ';'
-            | ifexpr | expr ';'
-  pat      := 'mut'? IDENT | '(' pat,* ')' | '&' pat | '_'
+            | ifexpr | matchexpr | expr ';'
+  pat      := alt ('|' alt)*
+  alt      := 'ref'? 'mut'? IDENT | '(' pat,* ')' | '&' pat | '_' | '-'? INT | 'true' | 'false'
+            | path | path '(' (pat | '..'),* ')' | path '{' (IDENT (':' pat)? | '..'),* '}'
   expr     := or
   or       := and ('||' and)*                and   := cmp ('&&' cmp)*
   cmp      := bor (('=='|'!='|'<'|'<='|'>'|'>=') bor)?
   bor      := bxor ('|' bxor)*               bxor  := band ('^' band)*      band := shift ('&' shift)*
   shift    := add (('<<'|'>>') add)*         add   := mul (('+'|'-') mul)*  mul  := cast (('*'|'/'|'%') cast)*
   cast     := unary ('as' type)*
-  unary    := ('-' | '!' | '&' 'mut'? | '*') unary | postfix
-  postfix  := primary ( '.' IDENT ('(' expr,* ')')? | '.' INT | '[' expr ']' | '(' expr,* ')' )*
-  primary  := INT | FLOAT | 'true' | 'false' | path | path '{' (IDENT (':' expr)?),* '}'     -- not in expr0
-            | '(' expr,* ')' | '[' expr,* ']' | block | ifexpr | IDENT '!' ( '(' ... ')' | '[' expr,* ']' )
-            | 'return' expr?
-  ifexpr   := 'if' ('let' 'Some' '(' IDENT ')' '=')? expr0 block ('else' (ifexpr | block))?
-  path     := IDENT ('::' IDENT)*
+  unary    := ('-' | '!' | '&' 'mut'? | '*') unary | postfix       -- `let r = &mut v[i];` makes r an alias of the place v[i]
+  postfix  := primary ( '.' IDENT ('::' '<' ... '>')? ('(' expr,* ')')? | '.' INT | '[' expr ']' | '(' expr,* ')' | '?' )*
+  primary  := INT | FLOAT | STRING | CHAR | 'true' | 'false' | path | path '{' (IDENT (':' expr)?),* '}'     -- not in expr0
+            | '(' expr,* ')' | '[' expr,* ']' | block | ifexpr | matchexpr | IDENT '!' ( '(' ... ')' | '[' expr,* ']' )
+            | 'return' expr? | 'break' | 'continue' | 'move'? '|' pat,* '|' expr
+  ifexpr   := 'if' ('let' pat '=')? expr0 block ('else' (ifexpr | block))?
+  matchexpr:= 'match' expr0 '{' ( pat ('if' expr)? '=>' (expr ',' | block ','?) )* '}'
+  path     := IDENT ('::' ('<' ... '>' | IDENT))*
   expr0    := expr without struct literals at the top level (Rust's rule for conditions and ranges)
 """
 import re
@@ -174,10 +180,14 @@ KEYWORDS = {"as", "break", "const", "continue", "crate", "else", "enum", "extern
             "let", "loop", "match", "mod", "move", "mut", "pub", "ref", "return", "static", "struct", "super", "trait",
             "true", "type", "unsafe", "use", "where", "while", "dyn", "async", "await"}
 
+# path prefixes that are KEPT in the name of a type (`proto::Point` is the type `proto__Point`, not `Point`)
+KEEP_QUAL = {"proto"}
+
 class Parser:
     def __init__(self, toks, fname):
         self.t, self.i, self.fname = toks, 0, fname
         self.half = False
+        self.derives = []
 
     # -- helpers
     def peek(self, k=0):
@@ -222,6 +232,32 @@ class Parser:
                 if t.val != close:
                     self.err("mismatched bracket", t)
                 return
+    def generic_names(self):
+        """at `<`: the names of the TYPE parameters (lifetimes, bounds and defaults skipped); [] when there is no list"""
+        names = []
+        if not self.at("<"):
+            return names
+        start = self.i
+        self.skip_generics()
+        depth, expect_name = 0, False
+        for j in range(start, self.i):
+            t = self.t[j]
+            if t.kind == "punct" and t.val in ("<", "(", "["):
+                depth += 1
+                if depth == 1:
+                    expect_name = True
+                continue
+            if t.kind == "punct" and t.val in (">", ")", "]"):
+                depth -= 1; continue
+            if t.kind == "punct" and t.val == ">>":
+                depth -= 2; continue
+            if depth == 1 and t.kind == "punct" and t.val == ",":
+                expect_name = True; continue
+            if depth == 1 and expect_name:
+                if t.kind == "ident" and t.val not in ("const",):
+                    names.append(t.val)
+                expect_name = False
+        return names
     def skip_generics(self):
         if self.at("<"):
             depth = 0
@@ -239,10 +275,18 @@ class Parser:
                 if depth <= 0:
                     return
     def skip_attrs_vis(self):
+        """skips attributes and visibility; the names listed in `#[derive(..)]` are left in self.derives"""
+        self.derives = []
         while True:
             if self.at("#"):
                 self.i += 1
                 self.accept("!")
+                if self.at("[") and self.at("derive", 1) and self.at("(", 2):
+                    j = self.i + 3
+                    while not (self.t[j].kind == "punct" and self.t[j].val == ")") and self.t[j].kind != "eof":
+                        if self.t[j].kind == "ident" and not (self.t[j + 1].kind == "punct" and self.t[j + 1].val == "::"):
+                            self.derives.append(self.t[j].val)
+                        j += 1
                 self.skip_balanced()
             elif self.at("pub"):
                 self.i += 1
@@ -270,16 +314,19 @@ class Parser:
     # -- items
     def parse_file(self):
         """-> dict(structs={name: [(field, type)]}, fns={qualified name: fn node}, aliases={name: type})"""
-        out = {"structs": {}, "fns": {}, "aliases": {}}
+        out = {"structs": {}, "fns": {}, "aliases": {}, "enums": {}, "meta": {}, "allfns": []}
         while self.peek().kind != "eof":
             self.skip_attrs_vis()
             if self.at("struct"):
                 self.parse_struct(out)
+            elif self.at("enum"):
+                self.parse_enum(out)
             elif self.at("impl"):
                 self.parse_impl(out)
             elif self.at("fn"):
                 f = self.parse_fn(None)
-                out["fns"][f.name] = f
+                out["fns"].setdefault(f.name, f)
+                out["allfns"].append(f)
             elif self.at("type"):
                 self.i += 1
                 name = self.ident()
@@ -295,16 +342,103 @@ class Parser:
                 self.skip_item()
         return out
 
+    def type_or_none(self, stops):
+        """a type, or None when it is outside the subset (then skipped up to one of `stops` at depth 0)"""
+        save = self.i
+        try:
+            return self.parse_type()
+        except Unsupported:
+            self.i = save
+            self.half = False
+            depth = 0
+            while not (depth == 0 and any(self.at(x) for x in stops)):
+                t = self.peek()
+                if t.kind == "punct" and t.val in ("(", "[", "{", "<"):
+                    depth += 1
+                if t.kind == "punct" and t.val in (")", "]", "}", ">"):
+                    depth -= 1
+                if t.kind == "punct" and t.val == ">>":
+                    depth -= 2
+                if t.kind == "eof":
+                    self.err("unterminated declaration")
+                self.i += 1
+            return None
+
+    def parse_enum(self, out):
+        derives = list(self.derives)
+        self.eat("enum")
+        name = self.ident()
+        gens = self.generic_names()
+        if self.at("where"):
+            while not self.at("{"):
+                self.i += 1
+        self.eat("{")
+        variants = []
+        while not self.at("}"):
+            self.skip_attrs_vis()
+            vn = self.ident()
+            if self.at("("):
+                self.i += 1
+                tys = []
+                while not self.at(")"):
+                    self.skip_attrs_vis()
+                    tys.append(self.type_or_none((",", ")")))
+                    if not self.accept(","):
+                        break
+                self.eat(")")
+                variants.append((vn, "tuple", tys))
+            elif self.at("{"):
+                self.i += 1
+                fs = []
+                while not self.at("}"):
+                    self.skip_attrs_vis()
+                    fn = self.ident()
+                    self.eat(":")
+                    fs.append((fn, self.type_or_none((",", "}"))))
+                    if not self.accept(","):
+                        break
+                self.eat("}")
+                variants.append((vn, "struct", fs))
+            else:
+                variants.append((vn, "unit", []))
+            if self.accept("="):
+                while not (self.at(",") or self.at("}")):
+                    self.i += 1
+            if not self.accept(","):
+                break
+        self.eat("}")
+        out["enums"][name] = variants
+        out["meta"][name] = {"generics": gens, "derives": derives, "tuple": False}
+
     def parse_struct(self, out):
+        derives = list(self.derives)
         self.eat("struct")
         name = self.ident()
-        self.skip_generics()
+        gens = self.generic_names()
+        out["meta"][name] = {"generics": gens, "derives": derives, "tuple": False}
         if self.accept(";"):
             out["structs"][name] = []
             return
         if self.at("("):
-            self.skip_balanced(); self.accept(";")
+            # tuple struct: the fields are named 0, 1, ..
+            self.i += 1
+            fields = []
+            while not self.at(")"):
+                self.skip_attrs_vis()
+                fields.append((str(len(fields)), self.type_or_none((",", ")"))))
+                if not self.accept(","):
+                    break
+            self.eat(")")
+            if self.at("where"):
+                while not self.at(";"):
+                    self.i += 1
+            self.accept(";")
+            out["structs"][name] = fields
+            out["meta"][name]["tuple"] = True
             return
+        if self.at("where"):
+            while not self.at("{"):
+                self.i += 1
         self.eat("{")
         fields = []
         while not self.at("}"):
@@ -339,11 +473,13 @@ class Parser:
 
     def parse_impl(self, out):
         self.eat("impl")
-        self.skip_generics()
+        gens = self.generic_names()
         save = self.i
+        trait = None
         try:
             t1 = self.parse_type()
             if self.accept("for"):
+                trait = t1
                 t1 = self.parse_type()
         except Unsupported:
             self.i = save
@@ -354,21 +490,35 @@ class Parser:
             while not self.at("{"):
                 self.i += 1
         self.eat("{")
+        assoc = {}
+        fns = []
         while not self.at("}"):
             self.skip_attrs_vis()
             if self.at("fn"):
                 f = self.parse_fn(t1)
-                out["fns"][f.name] = f
+                f.trait, f.impl_generics, f.assoc = trait, gens, assoc
+                fns.append(f)
+            elif self.at("type") and self.peek(1).kind == "ident" and self.at("=", 2):
+                self.i += 1
+                an = self.ident()
+                self.eat("=")
+                assoc[an] = self.type_or_none((";",))
+                self.eat(";")
             elif self.at("}"):
                 break
             else:
                 self.skip_item()
         self.eat("}")
+        for f in fns:
+            # the FIRST definition of a qualified name is the one a plain call refers to (as before); all of them are
+            # kept in "allfns" (overloaded operator impls: `impl Mul<Int> for T` and `impl Mul<usize> for T`)
+            out["fns"].setdefault(f.name, f)
+            out["allfns"].append(f)
 
     def parse_fn(self, self_ty):
         line = self.eat("fn").line
         name = self.ident()
-        self.skip_generics()
+        fn_generics = self.generic_names()
         self.eat("(")
         params = []
         while not self.at(")"):
@@ -383,6 +533,8 @@ class Parser:
                 mut = True
             if self.at("self"):
                 self.i += 1
+                if self.accept(":"):
+                    self.type_or_none((",", ")"))
                 params.append(("self", ("self",), ref and mut))
             else:
                 self.i = j
@@ -435,9 +587,10 @@ class Parser:
             start = self.i
             self.skip_balanced()
             body_range = (start, self.i)
-        qn = name if self_ty is None else "%s::%s" % (type_key(self_ty), name)
+        qn = name if self_ty is None else "%s::%s" % (self_ty[1] if self_ty[0] == "gen" else type_key(self_ty), name)
         return N("fn", line, name=qn, short=name, self_ty=self_ty, params=params, ret=ret, ret_bad=ret_bad,
-                 body_range=body_range, fname=self.fname, toks=self.t)
+                 body_range=body_range, fname=self.fname, toks=self.t, trait=None, impl_generics=[], assoc={},
+                 fn_generics=fn_generics)
 
     # -- types
     def parse_type(self):
@@ -455,7 +608,8 @@ class Parser:
                 self.i += 1
                 self.eat("]")
                 return ("arr", el, t.val)
-            self.err("slice types are outside the subset")
+            self.eat("]")
+            return ("vec", el)          # a slice `[T]` (behind a reference) is read like a Vec<T>
         if self.accept("("):
             ts = []
             while not self.at(")"):
@@ -475,6 +629,10 @@ class Parser:
             self.i += 1
             segs.append(self.ident())
         name = segs[-1]
+        if len(segs) == 2 and segs[0] == "Self":
+            return ("assoc", name)
+        if len(segs) >= 2 and segs[-2] in KEEP_QUAL:
+            name = segs[-2] + "__" + name
         args = []
         if self.at("<"):
             self.i += 1
@@ -506,8 +664,12 @@ class Parser:
             return ("opt", args[0])
         if name == "Self":
             return ("self",)
+        if name == "Result" and len(args) >= 1:
+            return ("res", args[0])
+        if name == "Box" and len(args) == 1:
+            return args[0]
         if args:
-            self.err("generic type %s<..> is outside the subset" % name)
+            return ("gen", name, tuple(args))
         return ("named", name)
 
     # -- blocks and statements
@@ -522,25 +684,85 @@ class Parser:
         self.eat("}")
         return N("block", line, stmts=stmts)
 
-    def parse_pat(self):
+    def parse_pat(self, alts=True):
+        """a pattern; with alts, `p | q | ..` (not inside closure parameters, where `|` ends the list)"""
         t = self.peek()
-        if self.accept("&"):
-            return self.parse_pat()
+        if alts:
+            self.accept("|")
+            ps = [self.parse_pat(False)]
+            while self.at("|"):
+                self.i += 1
+                ps.append(self.parse_pat(False))
+            return ps[0] if len(ps) == 1 else N("por", t.line, alts=ps)
+        if self.accept("&") or self.accept("&&"):
+            self.accept("mut")
+            return self.parse_pat(False)
         if self.accept("_"):
             return N("pwild", t.line)
         if self.accept("("):
             ps = []
+            trailing = False
             while not self.at(")"):
                 ps.append(self.parse_pat())
+                trailing = False
+                if not self.accept(","):
+                    break
+                trailing = True
+            self.eat(")")
+            if len(ps) == 1 and not trailing:
+                return ps[0]
+            return N("ptup", t.line, pats=ps)
+        if t.kind == "int" or (self.at("-") and self.peek(1).kind == "int"):
+            neg = self.accept("-")
+            v = self.peek(); self.i += 1
+            return N("plit", t.line, val=(-v.val if neg else v.val), suffix=v.suffix)
+        if self.at("true") or self.at("false"):
+            self.i += 1
+            return N("plit", t.line, val=(t.val == "true"), suffix=None)
+        if t.kind in ("str", "char", "float"):
+            self.err("string / char / float patterns are outside the subset")
+        had_ref = self.accept("ref")
+        had_mut = self.accept("mut")
+        segs = [self.ident()]
+        while self.at("::"):
+            self.i += 1
+            segs.append(self.ident())
+        if len(segs) >= 2 and segs[0] in KEEP_QUAL:
+            segs = [segs[0] + "__" + segs[1]] + segs[2:]
+        if self.at("("):
+            self.i += 1
+            ps, rest = [], False
+            while not self.at(")"):
+                if self.accept(".."):
+                    rest = True
+                else:
+                    ps.append(self.parse_pat())
                 if not self.accept(","):
                     break
             self.eat(")")
-            if len(ps) == 1:
-                return ps[0]
-            return N("ptup", t.line, pats=ps)
-        self.accept("ref")
-        self.accept("mut")
-        return N("pvar", t.line, name=self.ident())
+            return N("pts", t.line, segs=segs, pats=ps, rest=rest)
+        if self.at("{") and (len(segs) > 1 or segs[0][:1].isupper()) and not (had_ref or had_mut):
+            self.i += 1
+            fs, rest = [], False
+            while not self.at("}"):
+                if self.accept(".."):
+                    rest = True
+                else:
+                    self.accept("ref"); self.accept("mut")
+                    fn = self.ident()
+                    if self.accept(":"):
+                        fs.append((fn, self.parse_pat()))
+                    else:
+                        fs.append((fn, N("pvar", t.line, name=fn)))
+                if not self.accept(","):
+                    break
+            self.eat("}")
+            return N("pstruct", t.line, segs=segs, fields=fs, rest=rest)
+        if self.at("@"):
+            self.err("`x @ pattern` is outside the subset")
+        if len(segs) > 1 or (segs[0] == "None" and not (had_ref or had_mut)):
+            return N("ppath", t.line, segs=segs)
+        return N("pvar", t.line, name=segs[0])
 
     def parse_stmt(self):
         t = self.peek()
@@ -565,12 +787,20 @@ class Parser:
                 hi = self.parse_expr(no_struct=True)
             body = self.parse_block()
             return N("for", t.line, pat=pat, lo=lo, hi=hi, body=body)
-        if self.at("while") or self.at("loop") or self.at("match"):
+        if self.at("while") or self.at("loop"):
             self.err("`%s` is outside the subset" % t.val)
-        if self.at("if"):
-            e = self.parse_if()
-            had = self.accept(";")
-            return N("exprstmt", t.line, e=e, semi=(had or not self.at("}")))
+        if (self.at("if") or self.at("match")) :
+            e = self.parse_if() if self.at("if") else self.parse_match()
+            if not (self.at(".") or self.at("?")):
+                had = self.accept(";")
+                return N("exprstmt", t.line, e=e, semi=(had or not self.at("}")))
+            # `match .. { .. }?` / `.method()`: the block-like expression goes on as an ordinary expression
+            e = self.p_postfix_from(e)
+            if self.accept(";"):
+                return N("exprstmt", t.line, e=e, semi=True)
+            if not self.at("}"):
+                self.err("expected ';' or '}' after expression")
+            return N("exprstmt", t.line, e=e, semi=False)
         if self.at("return"):
             self.i += 1
             e = None
@@ -593,17 +823,47 @@ class Parser:
             self.err("expected ';' or '}' after expression")
         return N("exprstmt", t.line, e=e, semi=False)
 
+    def parse_match(self):
+        line = self.eat("match").line
+        scrut = self.parse_expr(no_struct=True)
+        self.eat("{")
+        arms = []
+        while not self.at("}"):
+            self.skip_attrs_vis()
+            pat = self.parse_pat()
+            guard = None
+            if self.accept("if"):
+                guard = self.parse_expr()
+            self.eat("=>")
+            if self.at("{"):
+                body = self.parse_block()
+                self.accept(",")
+            else:
+                body = self.parse_expr()
+                for op in ("=", "+=", "-=", "*=", "/="):
+                    if self.at(op):      # `pat => place = value,`
+                        self.i += 1
+                        rhs = self.parse_expr()
+                        body = N("block", body.line, stmts=[N("assign", body.line, lhs=body, op=op, rhs=rhs)])
+                        break
+                if not self.accept(","):
+                    if not self.at("}"):
+                        self.err("expected ',' or '}' after a match arm")
+            arms.append((pat, guard, body))
+        self.eat("}")
+        return N("match", line, scrut=scrut, arms=arms)
+
     def parse_if(self):
         line = self.eat("if").line
         letvar = None
+        letpat = None
         if self.accept("let"):
-            if not (self.at("Some") and self.at("(", 1)):
-                self.err("only `if let Some(x) = ..` is in the subset")
-            self.i += 2
-            self.accept("ref"); self.accept("mut")
-            letvar = self.ident()
-            self.eat(")")
+            letpat = self.parse_pat()
             self.eat("=")
+            # the form of the first version of the subset, `if let Some(x) = ..`, keeps its own representation
+            if (letpat.kind == "pts" and letpat.segs == ["Some"] and len(letpat.pats) == 1 and not letpat.rest
+                    and letpat.pats[0].kind == "pvar"):
+                letvar, letpat = letpat.pats[0].name, None
         cond = self.parse_expr(no_struct=True)
         then = self.parse_block()
         els = None
@@ -614,7 +874,7 @@ class Parser:
                 els = N("block", l2, stmts=[N("exprstmt", l2, e=inner, semi=False)])
             else:
                 els = self.parse_block()
-        return N("if", line, letvar=letvar, cond=cond, then=then, els=els)
+        return N("if", line, letvar=letvar, letpat=letpat, cond=cond, then=then, els=els)
 
     # -- expressions
     def parse_expr(self, no_struct=False):
@@ -671,7 +931,9 @@ class Parser:
             return N("un", t.line, op="!", e=self.p_unary(ns))
         if t.kind == "punct" and t.val in ("&", "&&"):
             self.i += 1
-            self.accept("mut")
+            if self.accept("mut"):
+                # transparent as a value; `let r = &mut place;` makes r an alias of the place
+                return N("refmut", t.line, e=self.p_unary(ns))
             return self.p_unary(ns)          # references are transparent
         if t.kind == "punct" and t.val == "*":
             self.i += 1
@@ -687,7 +949,8 @@ class Parser:
         self.eat(")")
         return args
     def p_postfix(self, ns):
-        e = self.p_primary(ns)
+        return self.p_postfix_from(self.p_primary(ns))
+    def p_postfix_from(self, e):
         while True:
             t = self.peek()
             if self.at("."):
@@ -700,11 +963,16 @@ class Parser:
                 else:
                     self.i += 1
                     name = self.ident()
+                    turbo = False
                     if self.at("::"):
-                        self.err("turbofish is outside the subset")
+                        self.i += 1
+                        if not self.at("<"):
+                            self.err("expected `<` after `::` in a method call")
+                        self.skip_generics()
+                        turbo = True
                     if self.at("("):
                         args = self.p_args()
-                        e = N("mcall", t.line, recv=e, name=name, args=args)
+                        e = N("mcall", t.line, recv=e, name=name, args=args, turbo=turbo)
                     else:
                         e = N("field", t.line, e=e, name=name)
             elif self.at("["):
@@ -716,7 +984,8 @@ class Parser:
                 args = self.p_args()
                 e = N("call", t.line, path=e.segs, args=args)
             elif self.at("?"):
-                self.err("`?` is outside the subset")
+                self.i += 1
+                e = N("try", t.line, e=e)
             else:
                 return e
     def p_primary(self, ns):
@@ -728,7 +997,8 @@ class Parser:
             self.i += 1
             return N("float", t.line, mant=t.val[0], e10=t.val[1])
         if t.kind in ("str", "char"):
-            self.err("string/char literals are outside the subset")
+            self.i += 1
+            return N("str", t.line, val=t.val)
         if self.at("true") or self.at("false"):
             self.i += 1
             return N("bool", t.line, val=(t.val == "true"))
@@ -761,21 +1031,47 @@ class Parser:
             return self.parse_block()
         if self.at("if"):
             return self.parse_if()
+        if self.at("match"):
+            return self.parse_match()
+        if self.at("break") or self.at("continue"):
+            self.i += 1
+            if t.val == "break" and not (self.at(";") or self.at("}") or self.at(",")):
+                self.err("`break` with a value or a label is outside the subset")
+            return N(t.val, t.line)
+        if self.at("|") or self.at("||") or self.at("move"):
+            self.accept("move")
+            params = []
+            if not self.accept("||"):
+                self.eat("|")
+                while not self.at("|"):
+                    params.append(self.parse_pat(False))
+                    if self.accept(":"):
+                        self.parse_type()
+                    if not self.accept(","):
+                        break
+                self.eat("|")
+            if self.at("->"):
+                self.err("closures with a declared return type are outside the subset")
+            body = self.parse_expr()
+            return N("closure", t.line, params=params, body=body)
         if self.at("return"):
             self.i += 1
             e = None
             if not (self.at(";") or self.at("}") or self.at(")") or self.at(",")):
                 e = self.parse_expr()
             return N("return", t.line, e=e)
-        if self.at("match") or self.at("while") or self.at("loop") or self.at("|") or self.at("||") or self.at("move"):
-            self.err("`%s` (match / loops / closures) is outside the subset" % t.val)
+        if self.at("while") or self.at("loop"):
+            self.err("`%s` (loops other than `for`) is outside the subset" % t.val)
         if t.kind == "ident" and (t.val not in KEYWORDS or t.val in ("crate", "super")):
             segs = [t.val]; self.i += 1
             while self.at("::"):
                 self.i += 1
                 if self.at("<"):
-                    self.err("turbofish is outside the subset")
+                    self.skip_generics()        # turbofish: the type arguments are not needed
+                    continue
                 segs.append(self.ident())
+            if len(segs) >= 2 and segs[0] in KEEP_QUAL:
+                segs = [segs[0] + "__" + segs[1]] + segs[2:]
             if self.at("!"):
                 # macro invocation
                 self.i += 1
@@ -791,12 +1087,13 @@ class Parser:
                 if self.at("(") or self.at("[") or self.at("{"):
                     self.skip_balanced()
                 return N("macro", t.line, name=segs[-1])
-            if self.at("{") and not ns and (segs[-1][:1].isupper()):
+            if self.at("{") and not ns and (segs[-1].split("__")[-1][:1].isupper()):
                 self.i += 1
                 fields = []
                 while not self.at("}"):
                     if self.at(".."):
                         self.err("struct update syntax is outside the subset")
+                    self.skip_attrs_vis()
                     fn = self.ident()
                     if self.accept(":"):
                         fe = self.parse_expr()
@@ -806,7 +1103,7 @@ class Parser:
                     if not self.accept(","):
                         break
                 self.eat("}")
-                return N("structlit", t.line, name=segs[-1], fields=fields)
+                return N("structlit", t.line, name=segs[-1], segs=segs, fields=fields)
             return N("path", t.line, segs=segs)
         self.err("expression outside the subset")
 
@@ -831,7 +1128,19 @@ def type_key(ty):
         return "Tup_" + "_".join(type_key(t) for t in ty[1])
     if k == "self":
         return "Self"
+    if k == "gen":
+        return ty[1] + "_" + "_".join(type_key(t) for t in ty[2])
+    if k in ("struct", "enum", "foreign", "assoc"):
+        return ty[1]
+    if k == "res":
+        return "Result_" + type_key(ty[1])
+    if k == "ptr":
+        return "Ptr_" + (ty[1] if isinstance(ty[1], str) else type_key(ty[1]))
     return k
+
+def parse_type_text(text):
+    p = Parser(tokenize(text, "<config>"), "<config>")
+    return p.parse_type()
 
 def parse_source(text, fname):
     p = Parser(tokenize(text, fname), fname)
